@@ -146,7 +146,6 @@ fn build_cli(verif_dir: &Path) -> Result<PathBuf, String> {
 fn main() {
     let args = Args::parse();
     install_quiet_panic_hook();
-    watchdog("C18", args.pick(1500, 14400));
     let mut rep = Report::new("C18", "exploration", &args);
     rep.rule = "stateless programs (filters, two streams, a derived stream) and programs whose only state is partitioned by k (partitioned count / sliding-count windows with uid fingerprints, partitioned 2-step sequences); generated .evt files of 20-200 events over 1-8 integer keys, events carrying k (for the single-type window programs also events WITHOUT k, which form one partition of their own) (<= 800 outputs so the 1000 x N output channel cannot drop); the real `varpulis simulate --immediate --verbose --workers N` binary with and without --preload, N in 2..8, compared with N=1 as sorted multisets of OUTPUT EVENT lines. Non-trivial: run with N>=2 whose reference has outputs for >=2 keys (or >=2 outputs for stateless programs); distinct by (program, event file, N, mode).".into();
     rep.assume("the binary is built from /repo's current tree (cargo build -p varpulis-cli --bin varpulis, dev profile, hook guard off) before the runs");
@@ -158,6 +157,8 @@ fn main() {
             std::process::exit(rep.finish());
         }
     };
+    // the watchdog covers the runs, not the (possibly cold) build of the CLI
+    watchdog("C18", args.pick(1500, 14400));
     let cases = args.pick(16usize, 600usize);
     let threads = ncpu().min(8);
     let per_thread = cases / threads + 1;
